@@ -171,10 +171,11 @@ def expandNones : List Item → List Axis → List Axis
   | _ :: its, a :: ens => a :: expandNones its ens
   | _ :: its, [] => expandNones its []
 
-/-- `expanded_axes_metadata[item]` in `_get_ensemble_axes_metadata_items`: an OrdinalAxis slices its values; a LinearAxis under
-a slice with positive step moves its offset to the first selected coordinate (`start` = `item.indices(n)[0]`) and scales its
-sampling; under an index list or a backward slice it becomes the ordinal axis of the selected coordinates
-(`to_ordinal_axis(n)[item]`); everything else raises TypeError ⇒ `.copy()` -/
+/-- `expanded_axes_metadata[item]` in `_get_ensemble_axes_metadata_items`: an OrdinalAxis slices its values; a LinearAxis under a
+slice (any non-zero step) or an evenly spaced index list stays linear: its offset moves to the first selected coordinate and its
+sampling is multiplied by the step (`fwd = (first, step)`; negative for backward selections); under an irregular index list
+(`fwd = none`) it becomes the ordinal axis of the selected coordinates (`to_ordinal_axis(n)[item]`); everything else raises
+TypeError ⇒ `.copy()` -/
 def axisGet (a : Axis) (sel : List Nat) (fwd : Option (Int × Int)) : Axis :=
   match a, fwd with
   | .ordinal l vs, _ => .ordinal l (sel.map fun i => vs.getD i 0)
@@ -182,6 +183,20 @@ def axisGet (a : Axis) (sel : List Nat) (fwd : Option (Int × Int)) : Axis :=
   | .linear t off samp, some (start, step) => .linear t (off + start * samp) (samp * step)
   | .linear t off samp, none => .ordinalQ t (sel.map fun (i : Nat) => off + ((i : Int) : Rat) * samp)
   | a, _ => a
+
+/-- all consecutive differences equal `step` (`np.all(np.diff(indices) == step)`) -/
+def evenly : List Nat → Int → Bool
+  | a :: b :: rest, step => ((b : Int) - (a : Int) == step) && evenly (b :: rest) step
+  | _, _ => true
+
+/-- `np.diff(indices)` constant and non-zero, or fewer than two items: `(first, step)` of an evenly spaced index list -/
+def regularList (idx : List Nat) : Option (Int × Int) :=
+  match idx with
+  | [] => some (0, 1)
+  | [i] => some (i, 1)
+  | i :: j :: rest =>
+      let step : Int := (j : Int) - (i : Int)
+      if step != 0 && evenly (i :: j :: rest) step then some (i, step) else none
 
 /-- resolve the items against the dimensions they consume; `dims` are the ensemble dimension sizes -/
 def resolve : List Item → List Nat → Except Err (List Sel)
@@ -196,12 +211,13 @@ def resolve : List Item → List Nat → Except Err (List Sel)
       | _, .error e => .error e
   | .slice a b s :: its, n :: dims => match sliceIndices a b s n, resolve its dims with
       | .ok idx, .ok r =>
-          let step := s.getD 1
-          .ok (.keep idx (if step < 1 then none else some (sliceStart a s n, step)) :: r)
+          -- `item.indices(n)`; a start of -1 (empty backward selection) makes `LinearAxis.__getitem__` raise TypeError ⇒ plain copy
+          let start := sliceStart a s n
+          .ok (.keep idx (if start < 0 then some (0, 1) else some (start, s.getD 1)) :: r)
       | .error e, _ => .error e
       | _, .error e => .error e
   | .list l :: its, n :: dims => match listIndices l n, resolve its dims with
-      | .ok idx, .ok r => .ok (.keep idx none :: r)
+      | .ok idx, .ok r => .ok (.keep idx (regularList idx) :: r)
       | .error e, _ => .error e
       | _, .error e => .error e
   | .ellipsis :: _, _ => .error .not_implemented
